@@ -56,6 +56,27 @@ int main(int argc, char** argv) {
             dyn_err = e.what();
         }
     }
+    // a first run-time CAN schema object over ANOTHER reflection record (argv[2]) serves one frame before the schema under
+    // test is used: nothing of it may be shared with later objects
+    static fcp::dynamic::DynamicSchema dyn0;
+    static std::shared_ptr<fcp::can::Can> can_0;
+    if (argc > 2) {
+        try {
+            std::ifstream f(argv[2], std::ios::binary);
+            std::stringstream ss;
+            ss << f.rdbuf();
+            dyn0.LoadBinarySchema(ss.str());
+            can_0 = std::make_shared<fcp::can::Can>(std::make_shared<fcp::can::CanDynamicSchema>(dyn0));
+            fcp::can::frame_t f0{};
+            f0.bus[0] = 'b';
+            f0.sid = 7;
+            f0.dlc = 1;
+            f0.data[0] = 42;
+            (void) can_0->Decode(f0);
+            (void) can_0->Encode("PrimerMsg", json::parse("{\"v\": 1}"));
+        } catch (const std::exception&) {
+        }
+    }
     std::string line;
     while (std::getline(std::cin, line)) {
         std::istringstream is(line);
